@@ -274,6 +274,10 @@ def write_evidence(prop, tier, seed, results, wall, nviol, known_hits, inconclus
     os.makedirs(os.path.join(HERE, "evidence"), exist_ok=True)
     with open(os.path.join(HERE, "evidence", prop + ".json"), "w") as f:
         json.dump(ev, f, indent=1, default=str)
+    if tier == "thorough":  # kept next to the per-change evidence, which the next quick run overwrites
+        os.makedirs(os.path.join(HERE, "evidence", "thorough"), exist_ok=True)
+        with open(os.path.join(HERE, "evidence", "thorough", prop + ".json"), "w") as f:
+            json.dump(ev, f, indent=1, default=str)
 
 
 if __name__ == "__main__":
